@@ -2,6 +2,7 @@
 # developer helper: go test with the verif overlay. usage: ./devtest.sh ./chainsim -run X ...
 cd /verif/sim
 export GOFLAGS=-mod=mod GOPROXY=off GOSUMDB=off GOTOOLCHAIN=local
+export VERIF_KNOWN=${VERIF_KNOWN-/verif/known_findings.json}
 cat /repo/go.sum extra.sum > go.sum
 python3 - <<'PY'
 import os, json
